@@ -106,6 +106,10 @@ func vC11Session(maxReq int) {
 	}
 	if ndChoice("first.completes", 2) == 1 {
 		fs.gate <- struct{}{}
+	} else if ndChoice("first.flushed", 2) == 1 {
+		// the client gives up on the first attach: its tag leaves the table while
+		// its handler may still be inside the session
+		ch.fromPeer <- &Fcall{Type: Tflush, Tag: 9, Message: MessageTflush{Oldtag: 1}}
 	}
 	switch ndChoice("fault", 2) {
 	case 0:
